@@ -467,6 +467,23 @@ def check_value(ctx, tname, v, reg=None, choice=None, variant="list", observe=No
         raise Fail("roundtrip", _exc_kind("reencode-raises", err), _msg(err))
     if again != data:
         raise Fail("roundtrip", "reencode-differs", "first %s / second %s" % (data.hex(), again.hex()))
+    # -- the same objects encoded once more (an application may send one request object several times; a gateway may
+    #    re-encode what it decoded): same octets every time
+    try:
+        for who, o in (("original", obj), ("decoded", got)):
+            if service:
+                x3 = PDU_CLASS[ti.pdu]()
+                o.encode(x3)
+                third = bytes(x3.pduData)
+            else:
+                third = _encode_plain(o)
+            if third != data:
+                raise Fail("roundtrip", "second-encoding-of-the-same-object-differs:%s" % who,
+                           "first %s / again %s" % (data.hex(), third.hex()))
+    except Fail:
+        raise
+    except Exception as err:
+        raise Fail("roundtrip", _exc_kind("second-encoding-raises", err), _msg(err))
     # -- oracle 2: the transcription-driven encoder
     if ctx.ref.knows(tname):
         try:
